@@ -698,14 +698,24 @@ def rule_iter_arg(text, dropped):
                 k = close + 1
             if not stages:
                 continue
-            # another adapter / consumer follows (e.g. .collect_vec(), .sum()): not this rule's shape
+            # `.sum()` / `.sum::<T>()` consumes the chain: accumulate instead of building a Vec
+            summed = False
+            if k + 1 < len(toks) and toks[k].text == '.' and toks[k + 1].text == 'sum':
+                j2 = k + 2
+                if toks[j2].text == ':':          # turbofish ::<T>
+                    while toks[j2].text != '(':
+                        j2 += 1
+                if toks[j2].text == '(' and match[j2] == j2 + 1:
+                    summed = True
+                    k = j2 + 2
+            # another adapter / consumer follows (e.g. .collect_vec()): not this rule's shape
             if k < len(toks) and toks[k].text == '.':
                 continue
-            target = (i, k - 1, stages)
+            target = (i, k - 1, stages, summed)
             break
         if target is None:
             break
-        i, last, stages = target
+        i, last, stages, summed = target
         r0 = _postfix_start(toks, match, i)
         recv = text[toks[r0].s:toks[i].s]
         cur = 'verif_x'
@@ -720,6 +730,8 @@ def rule_iter_arg(text, dropped):
                 pre += f'let {nxt} = {{ let {pat} = {cur}; {body} }}; '
                 cur = nxt
         new = f'{{ let mut verif_v = verif_new_vec(); for verif_x in {recv}.iter() {{ {pre}verif_v.push({cur});{closes} }} verif_v }}'
+        if summed:
+            new = f'{{ let mut verif_s = verif_zero(); for verif_x in {recv}.iter() {{ {pre}verif_s = verif_s + {cur};{closes} }} verif_s }}'
         old = text[toks[r0].s:toks[last].e]
         d = old.count('\n') - new.count('\n')
         if d < 0:
